@@ -1548,6 +1548,9 @@ func (pr *Prover) callLin(call *ssa.Call) (Lin, bool) {
 	if _, _, ok := pr.intTypeRange(call.Type()); !ok {
 		return Lin{}, false
 	}
+	if l, ok := pr.inlineLin(call); ok {
+		return l, true
+	}
 	callees, ext := pr.p.CG().Callees(call)
 	if ext || len(callees) == 0 {
 		return Lin{}, false
@@ -2077,3 +2080,133 @@ func (pr *Prover) postFacts(b *ssa.BasicBlock) []Lin {
 }
 
 // narrowFacts / tableFacts are filled in by narrow.go.
+
+// inlineLin: the result of a tiny pure helper — one block, no store, no call other than len/cap — whose return
+// value is built from constants, its parameters, loads of fields of its pointer parameters, len() of those and
+// +, -, * by a constant, expressed in the caller's own atoms: a field load in the callee is the caller's load of
+// the same field of the argument at the version current at the call
+// (func (b *buffer) remaining() int { return len(b.data) - b.i }).
+func (pr *Prover) inlineLin(call *ssa.Call) (Lin, bool) {
+	sc := call.Call.StaticCallee()
+	if sc == nil || sc.Blocks == nil || len(sc.Blocks) != 1 || len(sc.FreeVars) != 0 || pr.inl > 2 || pr.verAt == nil {
+		return Lin{}, false
+	}
+	ret, ok := terminator(sc.Blocks[0]).(*ssa.Return)
+	if !ok || len(ret.Results) != 1 {
+		return Lin{}, false
+	}
+	for _, ins := range sc.Blocks[0].Instrs {
+		switch x := ins.(type) {
+		case *ssa.Store, *ssa.MapUpdate, *ssa.Send, *ssa.Go, *ssa.Defer:
+			return Lin{}, false
+		case *ssa.Call:
+			if bi, isB := x.Call.Value.(*ssa.Builtin); !isB || (bi.Name() != "len" && bi.Name() != "cap") {
+				return Lin{}, false
+			}
+		}
+	}
+	args := call.Call.Args
+	argOf := func(p *ssa.Parameter) (ssa.Value, bool) {
+		for i, q := range sc.Params {
+			if q == p && i < len(args) {
+				return args[i], true
+			}
+		}
+		return nil, false
+	}
+	// the caller's key of a field load made by the callee
+	loadKey := func(ld *ssa.UnOp) (string, bool) {
+		fa, ok := ld.X.(*ssa.FieldAddr)
+		if !ok {
+			return "", false
+		}
+		prm, ok := fa.X.(*ssa.Parameter)
+		if !ok {
+			return "", false
+		}
+		a, ok := argOf(prm)
+		if !ok {
+			return "", false
+		}
+		addr := fmt.Sprintf("&(%s).%d", pr.key(a), fa.Field)
+		if pr.cur != nil {
+			if _, isD := pr.cur.isField(fa, pr.cur.D); isD {
+				return fmt.Sprintf("*(%s)", addr), true
+			}
+		}
+		return fmt.Sprintf("*(%s)@%s", addr, pr.verAt(call, classOf(fa))), true
+	}
+	var ev func(v ssa.Value, depth int) (Lin, bool)
+	ev = func(v ssa.Value, depth int) (Lin, bool) {
+		if depth > 12 {
+			return Lin{}, false
+		}
+		switch x := v.(type) {
+		case *ssa.Const:
+			if k, ok := constInt(x); ok {
+				return linConst(k), true
+			}
+		case *ssa.Parameter:
+			if a, ok := argOf(x); ok {
+				if _, _, isInt := pr.intTypeRange(a.Type()); isInt {
+					return pr.lin(a), true
+				}
+			}
+		case *ssa.Convert:
+			if pr.convPreserves(x) || isWordInt(x.Type()) && isWordInt(x.X.Type()) {
+				return ev(x.X, depth+1)
+			}
+		case *ssa.BinOp:
+			a, ok1 := ev(x.X, depth+1)
+			b, ok2 := ev(x.Y, depth+1)
+			if !ok1 || !ok2 || !isWordInt(x.Type()) {
+				return Lin{}, false
+			}
+			switch x.Op {
+			case token.ADD:
+				return a.add(b), true
+			case token.SUB:
+				return a.sub(b), true
+			case token.MUL:
+				if b.isConst() {
+					return a.scale(b.c), true
+				}
+				if a.isConst() {
+					return b.scale(a.c), true
+				}
+			}
+		case *ssa.UnOp:
+			if x.Op == token.MUL {
+				if _, _, isInt := pr.intTypeRange(x.Type()); isInt {
+					if k, ok := loadKey(x); ok {
+						if pr.cur != nil {
+							if fa, isFA := x.X.(*ssa.FieldAddr); isFA {
+								if _, isI := pr.cur.isField(fa, pr.cur.I); isI {
+									pr.atomRange(k, 0, math.MaxInt64)
+								}
+							}
+						}
+						return linAtom(k), true
+					}
+				}
+			}
+		case *ssa.Call:
+			if bi, isB := x.Call.Value.(*ssa.Builtin); isB && bi.Name() == "len" && len(x.Call.Args) == 1 {
+				if ld, ok := x.Call.Args[0].(*ssa.UnOp); ok && ld.Op == token.MUL {
+					if k, ok := loadKey(ld); ok {
+						a := "len(" + k + ")"
+						pr.atomRange(a, 0, math.MaxInt64)
+						return linAtom(a), true
+					}
+				}
+				if prm, ok := x.Call.Args[0].(*ssa.Parameter); ok {
+					if a, ok := argOf(prm); ok {
+						return pr.lenOf(a), true
+					}
+				}
+			}
+		}
+		return Lin{}, false
+	}
+	return ev(ret.Results[0], 0)
+}
